@@ -61,6 +61,8 @@ inductive Obs where
   | call (hid : Nat) (seq prev : List KP)        -- handler invoked with event.key_sequence; returned
   | bell                                         -- EditReadOnlyBuffer swallowed
   | drop (k : KP)                                -- `del buffer[:1]` (key matched nothing)
+  | requeue (ks : List KP)                       -- app is done: rest of the key buffer pushed back
+                                                 -- to the front of the input queue (typeahead)
   | raise (hid : Nat) (seq prev : List KP)       -- handler invoked; its exception left process_keys
 deriving Repr, Inhabited, DecidableEq
 
@@ -154,7 +156,10 @@ def examine (I : Iface σ) (ps : PS σ) (flush : Bool) : PS σ × List Obs × Ct
   let d := decideOf I ps flush
   exec I { ps with w := d.1 } d.2
 
-/-- run the loop body until the coroutine yields again (or dies) -/
+/-- run the loop body until the coroutine yields again (or dies).  At the top of a retry
+    iteration: `if buffer and get_app().is_done:` the keys left in the key buffer are pushed back
+    to the front of the input queue (`extendleft(reversed(buffer))`), the buffer is cleared and
+    the coroutine yields. -/
 def runLoop (I : Iface σ) : Nat → PS σ → Bool → PS σ × List Obs × Bool
   | 0, ps, _ => (ps, [], false)
   | n + 1, ps, flush =>
@@ -163,8 +168,12 @@ def runLoop (I : Iface σ) : Nat → PS σ → Bool → PS σ × List Obs × Boo
     | .yield_ => (r.1, r.2.1, false)
     | .dead => (r.1, r.2.1, true)
     | .retry =>
-      let r' := runLoop I n r.1 false
-      (r'.1, r.2.1 ++ r'.2.1, r'.2.2)
+      if !r.1.buffer.isEmpty && I.done r.1.w then
+        ({ r.1 with queue := r.1.buffer ++ r.1.queue, buffer := [] },
+         r.2.1 ++ [.requeue r.1.buffer], false)
+      else
+        let r' := runLoop I n r.1 false
+        (r'.1, r.2.1 ++ r'.2.1, r'.2.2)
 
 /-- `self._process_coroutine.send(key_press)`; the flag says that an exception came out -/
 def send (I : Iface σ) (ps : PS σ) (kp : KP) : PS σ × List Obs × Bool :=
